@@ -303,6 +303,15 @@ class Queue(Greenlet):
         assert pool is not None
         return pool.spawn(func, *args, **kwargs)
 
+    def _pool_spawn_unblocked(self, which, func, *args, **kwargs):
+        # For jobs spawned by a greenlet that holds a slot of another bounded
+        # pool: waiting here for a free slot could be waiting for greenlets
+        # that are waiting for ours.
+        pool = getattr(self, which+'_pool', None)
+        if pool is not None and pool.full():
+            return gevent.spawn(pool.spawn, func, *args, **kwargs)
+        return self._pool_spawn(which, func, *args, **kwargs)
+
     def _add_queued(self, entry):
         timestamp, id = entry
         if id not in self.queued_ids | self.active_ids:
@@ -346,7 +355,7 @@ class Queue(Greenlet):
             self._add_queued(entry)
 
     def _remove(self, id):
-        self._pool_spawn('store', self._remove_stored, id)
+        self._pool_spawn_unblocked('store', self._remove_stored, id)
 
     def _remove_stored(self, id):
         # The id stays active until the message is gone from storage, so that
@@ -409,13 +418,15 @@ class Queue(Greenlet):
         try:
             results = self.relay._attempt(envelope, attempts)
         except TransientRelayError as e:
-            self._pool_spawn('store', self._retry_later, id, envelope, e.reply)
+            self._pool_spawn_unblocked('store', self._retry_later, id, envelope,
+                                       e.reply)
         except PermanentRelayError as e:
             self._perm_fail(id, envelope, e.reply)
         except Exception as e:
             logging.log_exception(__name__)
             reply = Reply('450', '4.0.0 Unhandled delivery error: '+str(e))
-            self._pool_spawn('store', self._retry_later, id, envelope, reply)
+            self._pool_spawn_unblocked('store', self._retry_later, id, envelope,
+                                       reply)
             raise
         else:
             if isinstance(results, collections.abc.Mapping):
